@@ -7,6 +7,7 @@ HARNESSES = {
     "record": (["plain", "asan"], None),
     "replay_cb": (["asan"], None),
     "replay_history": (["plain"], None),
+    "replay_heap": (["asan"], None),
 }
 def build_all():
     for name, (variants, extra) in HARNESSES.items():
